@@ -44,12 +44,11 @@ def spec_selfcheck(ctx, gen, oracle, impls, n):
             # self-check of the trie flavour is restricted to such cases until the Lean spec has a
             # per-flavour order
             got = []
-            for _ in range(20 * n):
+            for _ in range(40 * n):
                 if len(got) >= n:
                     break
                 ops = gen(ctx.rng, "spec-" + impl)
-                if not any(c >= 0x80 for o in ops[1:] for w in o.split()[1:2] + (o.split()[2:3] if o.startswith(("foreach", "iter_new")) else [])
-                           if w not in ("*", "-") and not w.isdigit() for c in mapgen.unhex(w)):
+                if not mapgen.has_high_byte(ops):
                     got.append(ops)
             cases += [("s-%s-%d" % (impl, i), ops) for i, ops in enumerate(got)]
             ctx.count("spec-selfcheck-trie-ascii-only", len(got))
